@@ -52,8 +52,23 @@ func (r *verifChunks) Read(p []byte) (int, error) {
 // verifContentChunk: one chunk of input: pointer-like text (see
 // verifPointerLikeInput) or arbitrary bytes of arbitrary length.
 func verifContentChunk(tag string, maxLen int) string {
-	if verifChoose(tag+".kind", 2) == 0 {
+	switch verifChoose(tag+".kind", 3) {
+	case 0:
 		return verifPointerLikeInput(verifBound("lines", 2, 4), verifBound("line.len", 80, 120))
+	case 1:
+		// a well-formed pointer (any oid, any size), possibly with surrounding white space
+		oid := verifNondetString(tag + ".oid")
+		verifAssumeAlphabet(oid, "09af")
+		verifAssume(len(oid) == 64)
+		size := verifNondetString(tag + ".size")
+		verifAssumeAlphabet(size, "09")
+		verifAssume(len(size) >= 1 && len(size) <= 15)
+		lead := verifNondetString(tag + ".lead")
+		trail := verifNondetString(tag + ".trail")
+		verifAssumeClass(lead, "asciiws")
+		verifAssumeClass(trail, "asciiws")
+		verifAssume(len(lead) <= 2 && len(trail) <= 2)
+		return lead + "version https://git-lfs.github.com/spec/v1\noid sha256:" + oid + "\nsize " + size + trail
 	}
 	s := verifNondetString(tag + ".bytes")
 	verifAssume(len(s) >= 1 && len(s) <= maxLen)
